@@ -15,11 +15,11 @@ def run(ctx):
     ctx.cov["rule"] = ("cases = (haystack, needle) byte strings over {0x00, 0x01, 0x02, 0x80, 0xFF}: every haystack up to length 3 (quick) / 4 (thorough) x every "
                        "needle up to length 2, plus seeded longer pairs; each case evaluates every query for every position / count in {0..5, npos} "
                        "(49 argument pairs for the two-argument queries); non-trivial = haystack non-empty; distinct by content")
+    tlc_mc(ctx, SD, "MC_SVA", "mc_sva.cfg", workers=8, coverage=False, timeout=3000,
+           cfg_text="CONSTANTS Bytes = {0, 1, 255}\n MaxH = %d\n MaxN = 2\nSPECIFICATION Spec\nINVARIANT Laws\nCHECK_DEADLOCK FALSE\n" % (3 if quick else 4))
     hs = [list(c) for n in range(0, 4 if quick else 5) for c in itertools.product(ALPHA, repeat=n)]
     ns = [list(c) for n in range(0, 3) for c in itertools.product(ALPHA, repeat=n)]
     pairs = [(h, n) for h in hs for n in ns]
-    if quick:
-        pairs = pairs[ctx.seed % 2::2]
     for i in range(100 if quick else 2000):
         pairs.append(([rng.choice(ALPHA) for _ in range(rng.randint(3, 5))], [rng.choice(ALPHA) for _ in range(rng.randint(1, 3))]))
     lines = ["%d %s %d %s" % (len(h), " ".join(map(str, h)), len(n), " ".join(map(str, n))) for h, n in pairs]
